@@ -960,6 +960,12 @@ func (c *Ctx) parserTables() *parserTables {
 				ast.Inspect(cl, func(n ast.Node) bool {
 					if call, ok := n.(*ast.CallExpr); ok && m == nil {
 						if f, ok := calleeFunc(info, call); ok && f.Pkg() == p.Types {
+							// a plain function wrapped around the parse call (a result converter): look inside
+							if sig, ok := f.Type().(*types.Signature); ok && sig.Recv() == nil && len(call.Args) == 1 {
+								if _, inner := ast.Unparen(call.Args[0]).(*ast.CallExpr); inner {
+									return true
+								}
+							}
 							m = f
 						}
 					}
